@@ -547,6 +547,13 @@ var C17Via = Register(&Check[CaseViaBr]{
 			if sig, ln := sipsp.GetViaBrSig(v); sig != 0 || ln != 0 {
 				return viol("GetViaBrSig(%s) = (%#x, %d) for a Via body without parameters", B(v), uint(sig), ln)
 			}
+			// ... and the parameters of a later comma-separated Via on the same line are not the first Via's (D20)
+			if bytes.IndexByte(v, ',') < 0 {
+				v2 := append(append([]byte{}, v...), ", SIP/2.0/UDP later.example;branch=z9hG4bK-x.y_z"...)
+				if sig, ln := sipsp.GetViaBrSig(v2); sig != 0 || ln != 0 {
+					return viol("GetViaBrSig(%s) = (%#x, %d): the first Via has no parameters, the branch is a later Via's", B(v2), uint(sig), ln)
+				}
+			}
 			return ok(false, "no-params")
 		}
 		sig, ln := sipsp.GetViaBrSig(v)
